@@ -513,27 +513,30 @@ def State.closeVictims (s : State) (id upper : Nat) : Nat → State
     | some st => if isVictim id upper st then s.closeStream n (some cUnavailable) cUnavailable false h2No else s
     | none => s
 
+/-- first GOAWAY on this transport (`default:` branch of the select): setGoAwayReason, close(t.goAway),
+onClose + draining unless already draining -/
+def State.goAwayFirst (s : State) (code : Nat) (debug : Bytes) : State :=
+  let reason := if code = h2EnhanceYourCalm && debug = b "too_many_pings" then 2 else 1
+  let s := { s with reason := reason, goAwayClosed := true }
+  if s.tstate ≠ .draining then ({ s with tstate := TState.draining }).notify reason code false else s
+
+/-- record the id, then kill the streams above it (or return the "no active streams" error) -/
+def State.goAwayKill (s : State) (id upper : Nat) : State :=
+  let s := { s with prevGoAwayID := id }
+  if s.activeCount == 0 then { s with goAwayErrs := s.goAwayErrs + 1 }
+  else
+    -- stream.unprocessed.Store(true) for every victim (done or not), then closeStream outside t.mu
+    (s.markVictims id upper).closeVictims id upper s.streams.length
+
 /-- `handleGoAway`; the returned error is assigned to the reader's `errClose`, and the reader loop
 goes on to the next frame (it is only counted here). -/
 def State.handleGoAway (s : State) (id code : Nat) (debug : Bytes) : State :=
   if s.tstate = .closing then s else
   if id > 0 && id % 2 = 0 then { s with goAwayErrs := s.goAwayErrs + 1 } else
   if s.goAwayClosed && id > s.prevGoAwayID then { s with goAwayErrs := s.goAwayErrs + 1 } else
-  -- first GOAWAY: setGoAwayReason, close(t.goAway), deferred put(incomingGoAway), onClose + draining
-  let first := !s.goAwayClosed
-  let s := if first then
-      let reason := if code = h2EnhanceYourCalm && debug = b "too_many_pings" then 2 else 1
-      let s := { s with reason := reason, goAwayClosed := true }
-      if s.tstate ≠ .draining then ({ s with tstate := .draining }).notify reason code false else s
-    else s
   let upper := if s.prevGoAwayID = 0 then maxU32 else s.prevGoAwayID
-  let s := { s with prevGoAwayID := id }
-  let s :=
-    if s.activeCount == 0 then { s with goAwayErrs := s.goAwayErrs + 1 }
-    else
-      -- stream.unprocessed.Store(true) for every victim (done or not), then closeStream outside t.mu
-      (s.markVictims id upper).closeVictims id upper s.streams.length
-  if first then s.put .inGoAway else s
+  if s.goAwayClosed then s.goAwayKill id upper
+  else ((s.goAwayFirst code debug).goAwayKill id upper).put .inGoAway      -- deferred put(incomingGoAway)
 
 /-- `streams := t.activeStreams; t.activeStreams = nil` -/
 def snapF (x : Strm) : Strm := { x with inSnapshot := x.inActive, inActive := false }
